@@ -28,6 +28,7 @@ type ClientOpts struct {
 	ConnectTimeout int    `json:"connect_timeout_s"`
 	Logger         int    `json:"logger"` // 0 none, 1 recording, 2 failing
 	WebSocket      bool   `json:"websocket,omitempty"`
+	StreamDomain   string `json:"stream_domain,omitempty"` // TransportConfiguration.Domain set explicitly (a hosted domain: the stream is opened to it, the JID keeps its own)
 	TLSMax12       bool   `json:"tls_1_2_at_most,omitempty"` // the application's TLS config does not go beyond TLS 1.2
 	Address        string `json:"address,omitempty"`         // overrides the default address of the chosen transport
 }
@@ -149,6 +150,9 @@ func NewCW(e *Engine, o ClientOpts, certs *CertSet) *CW {
 		cfg.TLSConfig = &tls.Config{RootCAs: certs.Roots(), Rand: SeededRand(e.Tape.Seed, 'c'), ServerName: o.ServerName, MinVersion: tls.VersionTLS12}
 	case TLSCfgSkipVerify:
 		cfg.TLSConfig = &tls.Config{InsecureSkipVerify: true, Rand: SeededRand(e.Tape.Seed, 'c'), ServerName: o.ServerName, MinVersion: tls.VersionTLS12}
+	}
+	if o.StreamDomain != "" {
+		cfg.TransportConfiguration.Domain = o.StreamDomain
 	}
 	if o.TLSMax12 && cfg.TLSConfig != nil {
 		cfg.TLSConfig.MaxVersion = tls.VersionTLS12
